@@ -171,8 +171,14 @@ func (r *Run) writeReplay(sig string, s *sigInfo) string {
 	return p
 }
 
+// AtExit functions run at the start of Finish (profilers).
+var AtExit []func()
+
 // Finish writes the evidence file, prints verdict lines and exits.
 func (r *Run) Finish() {
+	for _, f := range AtExit {
+		f()
+	}
 	r.mu.Lock()
 	defer r.mu.Unlock()
 	unexplained := 0
